@@ -33,7 +33,7 @@ Delta(st, ev) ==
     [] ev.op = "ClearError" -> 0 - st.pending
     [] ev.op = "Call" -> errblocks
     [] ev.op = "Crystal_AddCrystal" -> (IF ev.ok = 1 THEN 2 + (IF ev.n = 0 THEN 1 ELSE 0) ELSE 0) + errblocks
-    [] ev.op = "Crystal_ReadFile" -> (IF ev.ok = 1 THEN 2 * (ev.n \div 10) + (IF ev.n % 10 = 0 THEN 1 ELSE 0) ELSE 0) + errblocks
+    [] ev.op = "Crystal_ReadFile" -> (IF ev.ok = 1 THEN 2 * (ev.n \div 10) + (IF ev.n % 10 = 0 /\ ev.n \div 10 > 0 THEN 1 ELSE 0) ELSE 0) + errblocks      \* a file without entries (empty, the null device) adds nothing and needs no storage
     [] OTHER -> (IF ev.ok = 1 THEN Footprint(ev.kind, ev.n) ELSE 0) + errblocks
 HeapStep(st, ev) ==
   LET errblocks == IF ev.err = 1 /\ ev.slot = 1 THEN Footprint("error", 0) ELSE 0 IN
